@@ -31,6 +31,11 @@ mut("input_tensor_changed", 1, lambda e: e["data"].__setitem__(1, 4))
 mut("not_matching", 1, lambda e: e["ten"]["idx"].__setitem__(1, [1, 3, 2]))
 mut("measured_above_upper", 5, lambda e: e["out"].__setitem__("err2_q", 100000000))
 mut("measured_below_lower", 5, lambda e: e["out"].__setitem__("err2_q", 0))
+mut("int_spec_for_nonuniform_rank", 0, lambda e: e.__setitem__("rspec", "int"))
+mut("none_spec_with_truncating_rank", 0, lambda e: e.__setitem__("rspec", "none"))
+mut("computed_ranks_break_boundary", 1, lambda e: (e.__setitem__("rspec", "same"), e["out"]["ranks"].__setitem__(0, 2)))
+mut("computed_raise_not_ring", 1, lambda e: (e.__setitem__("rspec", "same"), e["out"].update(raised=True, exc="ValueError")))
+mut("unknown_call_path", 1, lambda e: e.__setitem__("via", "magic"))
 mut("int_dtype_on_real_data", 5, lambda e: e.__setitem__("dtype", "int64"))
 mut("unknown_dtype", 1, lambda e: e.__setitem__("dtype", "float16"))
 mut("measured_tails_not_monotone", 5, lambda e: e["tails"][0].__setitem__(2, e["tails"][0][1] + 5))
